@@ -439,6 +439,7 @@ func compileStruct(typ *runtime.Type, structName, fieldName string, structTypeTo
 			allFields = append(allFields, fieldSet)
 		}
 	}
+	foldMap := map[string]*structFieldSet{}
 	for _, set := range filterDuplicatedFields(allFields) {
 		fieldMap[set.key] = set
 		lower := strings.ToLower(set.key)
@@ -446,7 +447,13 @@ func compileStruct(typ *runtime.Type, structName, fieldName string, structTypeTo
 			// first win
 			fieldMap[lower] = set
 		}
+		if folded := foldName(set.key); foldMap[folded] == nil {
+			// case-insensitive matches go to the first field in declaration order, even when a
+			// later field is spelled exactly like the lower-cased name
+			foldMap[folded] = set
+		}
 	}
+	structDec.foldMap = foldMap
 	delete(structTypeToDecoder, typeptr)
 	structDec.tryOptimize()
 	return structDec, nil
